@@ -316,7 +316,7 @@ func (d *Do) collectBlockVariables(p *parser.Parser) ([]*base.T, error) {
 			return []*base.T{}, err
 		}
 
-		if nextT.IsTargetIdentifier("|") {
+		if nextT == nil || nextT.IsTargetIdentifier("|") {
 			return blockVariables, nil
 		}
 
